@@ -1,5 +1,4 @@
 """C14 bounded stand-in: Circuit.into_bench on circuits over all 19 gate types vs. the spec evaluator."""
-import itertools
 
 from .. import env
 from ..spec import net as N
@@ -31,10 +30,11 @@ def check(net, col):
     c = N.build(net)
     pre = N.snapshot(c)
     want_tt = N.tt(pre)
-    feats = _features(net)
+    # witness class = the gate types present that must be rewritten (+ shape features); the Collector keeps the
+    # minimal sets, so a defect of one converter is reported once, under that type
+    feats = _features(net) | set(_rewritten_types(net))
     size = len(net.gates) * 4 + len(net.blocks or {})
-    rts = _rewritten_types(net)
-    base = rts[0] if len(rts) == 1 else ('mixed' if rts else 'bench-only')
+    base = ''
     rp = {'kind': 'bounded', 'netlist': net.to_json(), 'call': 'build(netlist).into_bench()'}
     try:
         c.into_bench()
@@ -49,7 +49,7 @@ def check(net, col):
         col.add('C14/into_bench/outputs-kept', base, feats, size, f'outputs {pre.outputs} -> {post.outputs}', rp)
     left = sorted({t for t, _ in post.gates.values() if t not in S.BENCH_TYPES})
     if left:
-        col.add('C14/into_bench/only-bench-types', left[0], feats, size, f'non-bench gate types remain: {left}', rp)
+        col.add('C14/into_bench/only-bench-types', base, feats, size, f'non-bench gate types remain: {left}', rp)
     wf = K.wf_first(post, c)
     if wf:
         col.add(f'C14/into_bench/wf-{wf[0]}', base, feats, size, wf[1], rp)
@@ -77,7 +77,7 @@ def check(net, col):
             inside = h in (post.blocks.get(bn, {}).get('gates', []))
             should = owner in b['gates']
             if inside != should:
-                col.add('C14/into_bench/helper-gates-in-blocks', pre.gates[owner][0], feats, size,
+                col.add('C14/into_bench/helper-gates-in-blocks', base, {pre.gates[owner][0], 'blocks'}, size,
                         f'helper {h} of {owner}: in block {bn} = {inside}, block contained {owner} = {should}', rp)
     return True
 
@@ -146,14 +146,33 @@ def _worker(task):
     return cases, keys, samples, col.items
 
 
+HELPER_TYPES = ('LT', 'LEQ', 'GT', 'GEQ', 'ALWAYS_TRUE', 'ALWAYS_FALSE')
+
+
+def _collapse_all_types(col):
+    """a clause that fails for every helper-creating type with otherwise equal features has one cause in shared code
+    (e.g. _add_new_gate_to_blocks): report it once as `every-helper-type`."""
+    by = {}
+    for (o, b, f) in list(col.items):
+        t = [x for x in f if x in HELPER_TYPES]
+        if len(t) == 1:
+            by.setdefault((o, b, f - {t[0]}), {})[t[0]] = (o, b, f)
+    for (o, b, rest), m in by.items():
+        if set(m) == set(HELPER_TYPES):
+            best = min((col.items[k] for k in m.values()), key=lambda v: v[0])
+            for k in m.values():
+                del col.items[k]
+            col.items[(o, b, frozenset(rest | {'every-helper-type'}))] = best
+
+
 def run_bounded(rep, quick):
-    d = rep.bounded_driver(
+    rep.bounded_driver(
         NAME, 'Circuit.into_bench on every circuit with 1..2 inputs and K gates over all 19 gate types (n-ary with 2..3 operands, '
-        'repeated operands incl. GT(x,x), constants, 3 output selections incl. rewritten gates / inputs / repeated, with and '
-        'without blocks that contain rewritten gates) and on seeded random circuits: inputs, outputs, truth table (spec evaluator), '
+        'repeated operands incl. GT(x,x), constants; K<=1: 3 output selections incl. rewritten gates / inputs / repeated, with and '
+        'without blocks that contain rewritten gates; K=2: every node an output, with blocks) and on seeded random circuits: inputs, outputs, truth table (spec evaluator), '
         'remaining gate types, WF W1..W7 + real top_sort, arity, block membership of helper gates; '
         'non-trivial = distinct netlist containing at least one gate that must be rewritten',
-        'quick: K<=1 (arity<=3) and K=2 (arity<=2, 1..2 inputs) exhaustive + 1500 random K<=8; thorough: K<=2 arity<=3 exhaustive + 40000 random',
+        'quick: K<=1 (arity<=3) and K=2 (arity<=2, 1..2 inputs) exhaustive + 3000 random K<=8; thorough: K<=2 arity<=3 exhaustive + 160000 random',
         exhaustive=False)
     tasks = []
     if quick:
@@ -162,7 +181,7 @@ def run_bounded(rep, quick):
                 tasks.append(('enum', n_in, k, 3, 0, 1))
         tasks.append(('enum', 1, 2, 2, 0, 1))
         tasks.append(('enum', 2, 2, 2, 0, 1))
-        tasks.append(('random', 1500, 0, 8.0))
+        tasks.append(('random', 3000, 0, 8.0))
     else:
         for n_in in (1, 2, 3):
             for k in (0, 1):
@@ -171,13 +190,10 @@ def run_bounded(rep, quick):
             for p in range(16):
                 tasks.append(('enum', n_in, 2, 3, p, 16))
         for p in range(16):
-            tasks.append(('random', 2500, p))
+            tasks.append(('random', 10000, p))
     col = K.Collector()
     for cases, keys, samples, items in K.run_chunks(_worker, tasks, quick):
-        d['evaluations'] += cases
-        d['nontrivial'] |= keys
-        for s in samples:
-            if len(d['samples']) < 3:
-                d['samples'].append(s)
+        K.account(rep, NAME, cases, keys, samples)
         col.merge(items)
+    _collapse_all_types(col)
     col.flush(rep)
